@@ -1084,11 +1084,17 @@ static void register_training() {
                           PP(kmb.get_submodel(std::vector<std::string>{n1, n2}); return "";)));
     std::string fa = tmp_path("ma.bin"), fb = tmp_path("mb.bin");
     std::remove(fa.c_str()); std::remove(fb.c_str());
-    obs.push_back(verdict(CC(PRIMITIV_C_STATUS st = primitivSaveModel(c(&ma), fa.c_str(), 1); if (st == OKST) out = file_bytes(fa); return st;),
+    // statistics on both sides; PRIMITIV_C_BOOL is "zero / non-zero" (define.h): the C side passes true values other than 1
+    if (pa.valid() && pb.valid()) { pa.add_stats("m", Shape({2})); pb.add_stats("m", Shape({2})); pa.stats("m").reset(7); pb.stats("m").reset(7); }
+    const PRIMITIV_C_BOOL truthy[3] = {2u, 0x100u, 0x80000000u};
+    const PRIMITIV_C_BOOL ws_save = truthy[(n1.size() + n2.size()) % 3], ws_load = truthy[(n1.size() + 2 * n2.size() + 1) % 3];
+    obs.push_back(verdict(CC(PRIMITIV_C_STATUS st = primitivSaveModel(c(&ma), fa.c_str(), ws_save); if (st == OKST) out = file_bytes(fa); return st;),
                           PP(mb.save(fb, true); return file_bytes(fb);)));
     pa.value().reset(9); pb.value().reset(9);
-    obs.push_back(verdict(CC(PRIMITIV_C_STATUS st = primitivLoadModel(c(&ma), fb.c_str(), 1, nullptr); if (st == OKST) out = show(pa) + show(qa); return st;),
-                          PP(mb.load(fb, true, nullptr); return show(pb) + show(qb);)));
+    if (pa.valid() && pa.has_stats("m")) { pa.stats("m").reset(1); pb.stats("m").reset(1); }
+    obs.push_back(verdict(CC(PRIMITIV_C_STATUS st = primitivLoadModel(c(&ma), fb.c_str(), ws_load, nullptr);
+                             if (st == OKST) out = show(pa) + show(qa) + (pa.has_stats("m") ? show(pa.stats("m").to_vector()) : "nostats"); return st;),
+                          PP(mb.load(fb, true, nullptr); return show(pb) + show(qb) + (pb.has_stats("m") ? show(pb.stats("m").to_vector()) : "nostats");)));
     obs.push_back(verdict(CC(return primitivLoadModel(c(&ma), tmp_path("does-not-exist").c_str(), 1, c(static_cast<Device *>(&E.dev2)));),
                           PP(mb.load(tmp_path("does-not-exist"), true, &E.dev2); return "";)));
     return all_same(obs); });
